@@ -61,6 +61,14 @@ def toYangOld (j : Json) : R Json := do
 def toLegacyOld (j : Json) : R Json := do
   return outcome (yangToLegacyOld (← getReprs j) (← getJ (← fld j "doc")))
 
+/-- the hypotheses of the document-level theorems, evaluated on a generated document `doc` and on the legacy
+    document `legacy` that the implementation's `yang_to_legacy` returned for it -/
+def wfH (j : Json) : R Json := do
+  let reprs ← getReprs j
+  let d ← getJ (← fld j "doc")
+  let l ← getJ (← fld j "legacy")
+  return jObj [("yang", jBool (wfDoc reprs d)), ("legacy", jBool (wfLegacyDoc reprs l))]
+
 def precisionH (_ : Json) : R Json :=
   return jList (fun kv => Json.arr #[jStr kv.1, jInt kv.2]) precisionDict
 
@@ -98,7 +106,7 @@ def modesH (j : Json) : R Json := do
 
 def handlers : List (String × Handler) :=
   [("c18.to_yang", toYang), ("c18.to_legacy", toLegacy), ("c18.to_legacy_old", toLegacyOld), ("c18.to_yang_old", toYangOld),
-   ("c18.precision", precisionH), ("c18.fmt", fmtH), ("c18.parse", parseH),
+   ("c18.precision", precisionH), ("c18.wf", wfH), ("c18.fmt", fmtH), ("c18.parse", parseH),
    ("c18.aliases", aliasesH), ("c18.aliases_f4", aliasesF4H), ("c18.modes", modesH)]
 
 end Gnpy.Drv.C18
